@@ -100,7 +100,7 @@ pub fn c15_date_from_ymd_ranges_holds(y: i32, m: u32, d: u32, v: u32, vy: i32) {
 macro_rules! time_setter {
     ($tname:ident, $dname:ident, $method:ident, $max:expr) => {
         pub fn $tname(n: u64, off: i32, v: u32, v2: u32) {
-            assume(n < NPD as u64 && valid_off(off));
+            assume(n < NPD as u64); assume(off > -86_400); assume(off < 86_400);
             match tm(n, off).$method(v) {
                 Ok(r) => assert!(v <= $max && r.nanoseconds < NPD as u64),
                 Err(AstrolabeError::OutOfRange(e)) => {
@@ -111,7 +111,7 @@ macro_rules! time_setter {
             }
         }
         pub fn $dname(d: i32, n: u64, off: i32, v: u32, v2: u32) {
-            assume(n < NPD as u64 && valid_off(off) && d > i32::MIN && d < i32::MAX);
+            assume(n < NPD as u64); assume(off > -86_400); assume(off < 86_400); assume(d > i32::MIN); assume(d < i32::MAX);
             match dt(d, n, off).$method(v) {
                 Ok(r) => assert!(v <= $max && r.nanoseconds < NPD as u64),
                 Err(AstrolabeError::OutOfRange(e)) => {
